@@ -10,11 +10,16 @@ NATIVE = 'plain'
 NEEDS = ('icontract',)
 RULE = ('Files come from the independent encoder tdv.gen.lis: optional reel/tape headers, 1..2 logical files each with a file '
         'header, 0..3 tables, a data format specification (1..8 channels of codes 49,50,56,66,68,70,73,77,79 with 1..4 samples and '
-        '1..3 bursts, explicit or implied X, up/down/neither, type 0 or 1 data), data records following a frames-per-record '
-        'pattern (equal, short last, random, mixed; sometimes a table between data records; sometimes gaps in the recorded X), '
-        'trailers; physical layout = maximum physical record length x trailer options x TIF none/little/big-endian.  Code words '
-        'are random bit patterns (code 50 with exponent field 0..1023, negative code 70 words only in a minority of log passes).  '
-        'A case is one setFrameSet call of a load history (slice(start,stop,step) inside [0,total], channel list or None); '
+        '1..3 bursts, 4 % dipmeter channels of codes 130 / 234, explicit or implied X, up/down/neither, type 0 or 1 data), data records following a frames-per-record '
+        'pattern (equal, short last, random, mixed; sometimes a table or a record without internal format between data records; '
+        'sometimes gaps in the recorded X; 2 % long log passes with up to 656 frames in a record or up to 160 records), sometimes a '
+        'second specification + data of the same data type in one logical file, records without internal format of 16 types incl. '
+        'header-only records and logical EOF marks, trailers; physical layout = maximum physical record length (payload capacity from 1 '
+        'byte) x trailer options x TIF none/little/big-endian.  Code words are random bit patterns (code 50 with exponent field 0..1023).  '
+        'A case is one setFrameSet call of a load history (slice(start,stop,step) inside [0,total], channel list or None; the full load '
+        'also with default arguments); the loads of a file with several log passes run log pass after log pass or interleaved; the '
+        'channel list is a fresh list or one list object kept per log pass (refilled, or passed again as the reader left it); a third of '
+        'the files are loaded through two reader objects in turn; a fifth are indexed again after the loads; '
         'distinct by (file digest, log pass, slice, channel list, position in the history); non-trivial = implied X and step > 1 and '
         'the selection crosses a data record boundary, or a channel subset that is not a prefix of the channel list.')
 ASSUMPTIONS = [
@@ -23,6 +28,9 @@ ASSUMPTIONS = [
     'code 50 words are generated with a non-negative exponent below 1024 only (negative exponents are finding F5 of C07; larger ones exceed a double)',
     'implied X values are compared with a relative tolerance of 1e-9 (the reader accumulates spacing in floating point and converts units); '
     'recorded values and explicit X values are compared exactly',
+    'a second data format specification of the same data type inside one logical file starts a new log pass: the data records after it belong to it',
+    'records without interpreted internal format (types 42, 47, 65, 85, 86, 95..97, 100..102, 224..234) and logical EOF marks (137, after a file trailer) may '
+    'stand anywhere a table may; they are not headers, trailers or tables and are not compared in the index',
     'the expected value of every code word is computed by the harness decoder in tdv.gen.lis (exact dyadic rationals), not by TotalDepth',
     'last X value is asserted only for log passes with at least two data records whose X values are evenly spaced',
     'physical record checksums are written but their value is not part of the property',
@@ -37,7 +45,7 @@ MECHANISMS = [
     ('TotalDepth.LIS.core.FileIndexer', 'FileIndex.__init__'),
     ('TotalDepth.LIS.core.FileIndexer', 'IndexLogPass.add'),
 ]
-REQUIRED_MONITORS = ['index_model', 'logpass_model', 'frame_values', 'implied_x', 'explicit_x', 'value_access',
+REQUIRED_MONITORS = ['index_model', 'index_again_after_loads', 'logpass_model', 'frame_values', 'implied_x', 'explicit_x', 'value_access',
                      'submatrix_vs_full', 'read_containment', 'contract:RLEType01.tellLrForFrame',
                      'contract:FrameSet.__init__', 'contract:FrameSet.setFrameBytes:pre', 'contract:FrameSet.setIndirectX']
 MIN_NONTRIVIAL = {'quick': 400, 'thorough': 10000}
@@ -46,6 +54,17 @@ NSHARDS = 16
 TIMEOUT_S = {'quick': 300, 'thorough': 3000}
 XTOL = 1e-9
 PROP_TYPES = (128, 129, 130, 131, 132, 133, 32, 34, 39, 64)
+# widening knobs of tdv.gen.lis.random_file (its defaults are kept for the other checks that use the generator)
+PROFILE = {
+    'neg70_p': 0.5,                  # negative code 70 words raised (F18/F20); repaired, so no longer a minority
+    'long_p': 0.02,                  # log passes with hundreds of frames per record / a hundred records
+    'misc_types': [232, 234, 224, 225, 227, 85, 86, 42, 47, 65, 95, 96, 97, 100, 101, 102],
+    'misc_between_p': 0.04,
+    'eof_marker_p': 0.1,
+    'sequential_p': 0.06,
+    'tiny_cap_p': 0.03,
+    'dipmeter_p': 0.04,              # dipmeter channels (codes 130 / 234): 80 / 90 unsigned bytes per frame
+}
 
 
 def plan(tier, seed):
@@ -169,14 +188,24 @@ def run_shard(ctx, p):
             if rec.violation(monitor, kind, msg, witness, exc=exc) is None:
                 budget.ok((monitor, kind))
 
+    def index_entries(idx):
+        return [(o.tell, o.lrType, getattr(o, 'name', None)) for o in idx.genAll() if o.lrType in PROP_TYPES]
+
     for fi_no in range(p['files']):
         rng = ctx.sub_rng('file', fi_no)
-        data, fm = lis.random_file(rng, concurrent_p=0.12)
+        data, fm = lis.random_file(rng, concurrent_p=0.12, profile=PROFILE)
         digest = hashlib.blake2b(data, digest_size=8).hexdigest()
         rec.add('files')
         rec.add('file_bytes', len(data))
         rec.cls('layout-tif-%s' % fm.layout.tif)
         rec.cls('layout-multi-pr' if fm.layout.capacity < max(r['len'] for r in fm.records) else 'layout-single-pr')
+        if fm.layout.capacity < 4:
+            rec.cls('layout-capacity-1-to-3')
+        for r in fm.records:
+            if r['kind'] == 'misc':
+                rec.cls('record-without-format-type-%d' % r['type'])
+                if r['len'] == 2:
+                    rec.cls('record-of-header-only')
         tap = TapFile(data, name='<c06-%d>' % fi_no)
         keep_going = rng.random() < 0.5
         # ---- index
@@ -188,10 +217,7 @@ def run_shard(ctx, p):
             viol('index_model', 'exception', 'indexing raised %s: %s' % (type(e).__name__, e),
                  dict(_file_witness(fm, data), keep_going=keep_going), exc=e)
             continue
-        got = []
-        for o in idx.genAll():
-            if o.lrType in PROP_TYPES:
-                got.append((o.tell, o.lrType, getattr(o, 'name', None)))
+        got = index_entries(idx)
         exp = [(s, ty, name) for s, ty, name, kind in fm.index if ty in PROP_TYPES]
         rec.add('index_entries', len(exp))
         if got != exp:
@@ -203,18 +229,29 @@ def run_shard(ctx, p):
         if len(lps) != len(fm.logpasses):
             viol('logpass_model', 'count', '%d log passes found, %d written' % (len(lps), len(fm.logpasses)), _file_witness(fm, data))
             continue
+        # ---- every log pass: summary against the model, then its load history is drawn
+        states = []
         for lpi, (ilp, lp) in enumerate(zip(lps, fm.logpasses)):
             rec.mon('logpass_model')
             real = ilp.logPass
             desc = _describe(fm, lp, lpi)
             rec.cls('x-implied' if lp.indirect else 'x-explicit')
             rec.cls('direction-%s' % {1: 'up', 255: 'down', 0: 'none'}[lp.updown])
+            if getattr(lp, 'sequential', False):
+                rec.cls('logpass-second-specification-in-logical-file')
+            if getattr(lp, 'concurrent', False):
+                rec.cls('logpass-concurrent')
+            if getattr(lp, 'long_pass', False):
+                rec.cls('logpass-long')
             nrec = len(lp.frames_per_record)
+            rec.maxi('max_frames_in_a_record', max(lp.frames_per_record or [0]))
+            rec.maxi('max_records_in_a_logpass', nrec)
+            rec.maxi('max_frames_in_a_logpass', lp.total)
             rec.cls('records-%s' % ('0' if nrec == 0 else '1' if nrec == 1 else 'short-last' if lp.frames_per_record[-1] < lp.frames_per_record[0]
                                    and len(set(lp.frames_per_record[:-1])) == 1 else 'equal' if len(set(lp.frames_per_record)) == 1 else 'mixed'))
             for c in lp.channels:
                 rec.cls('rc-%d' % c.rc)
-                if c.samples * c.bursts > 1:
+                if c.nvalues > 1:
                     rec.cls('multi-valued-channel')
             try:
                 tf = real.totalFrames
@@ -239,14 +276,14 @@ def run_shard(ctx, p):
                 rec.mon('last_x')
                 if x_last is None or not _close(x_last, float(lp.x[-1]), scale):
                     viol('logpass_model', 'last-x', 'last X %r, written %r' % (x_last, float(lp.x[-1])), dict(desc, x0=float(lp.x[0])))
-            # ---- load history
-            M = np.array(lp.matrix, dtype='float64').reshape(lp.total, lp.ncols)
-            X = [float(x) for x in lp.x]
-            nch = len(lp.channels)
+            st = {'lpi': lpi, 'lp': lp, 'real': real, 'desc': desc, 'scale': scale, 'nch': len(lp.channels),
+                  'M': np.array(lp.matrix, dtype='float64').reshape(lp.total, lp.ncols), 'X': [float(x) for x in lp.x],
+                  'full': None, 'partials': [], 'shared': [], 'done': []}
             rec_of = []
             for r, (s, e, f0, n) in enumerate(lp.extents):
                 rec_of.extend((r, k) for k in range(n))
-            hist_len = rng.randrange(1, 7)
+            st['rec_of'] = rec_of
+            hist_len = rng.randrange(1, 7) if not getattr(lp, 'long_pass', False) else rng.randrange(1, 4)
             full_at = rng.randrange(0, hist_len + 1)
             history = []
             for h in range(hist_len + 1):
@@ -254,130 +291,207 @@ def run_shard(ctx, p):
                     a, b, s, chl = 0, lp.total, 1, None
                 else:
                     a, b, s = choose_slice(rng, lp.total)
-                    chl = choose_channels(rng, nch, lp.indirect)
+                    chl = choose_channels(rng, st['nch'], lp.indirect)
                 history.append((a, b, s, chl))
+            st['history'] = history
             rec.add('histories')
             rec.maxi('max_history_len', len(history))
-            full = None
-            partials = []
-            for h, (a, b, s, chl) in enumerate(history):
-                sel = list(range(a, b, s))
-                chans = list(range(nch)) if chl is None else sorted(set(chl) | (set() if lp.indirect else {0}))
-                cols = [lp.col_start[c] + j for c in chans for j in range(lp.channels[c].nvalues)]
-                recs_needed = sorted(set(rec_of[f][0] for f in sel))
-                crosses = len(recs_needed) > 1
-                nontrivial = (lp.indirect and s > 1 and crosses and len(sel) > 1) or (chl is not None and chans != list(range(len(chans))))
-                classes = ['history-pos-%d' % min(h, 3)]
-                if lp.indirect and s > 1 and crosses:
-                    classes.append('implied-x-stepped-crossing')
-                if chl is not None and chans != list(range(len(chans))):
-                    classes.append('non-prefix-subset')
-                if chans and chans[-1] != nch - 1:
-                    classes.append('last-channel-unselected')
-                if not sel:
-                    classes.append('empty-slice')
-                rec.case(('load', digest, lpi, h, a, b, s, chl), nontrivial, classes=classes,
-                         sample={'file_bytes': len(data), 'layout': fm.layout.describe(), 'frames_per_record': lp.frames_per_record,
-                                 'implied_x': lp.indirect, 'slice': [a, b, s], 'channels': chl,
-                                 'codes': [c.rc for c in lp.channels]} if nontrivial else None)
-                w0 = dict(desc, slice=[a, b, s], channel_list=chl, history=[list(x[:3]) + [x[3]] for x in history[:h + 1]],
-                          keep_going=keep_going)
-                tap.mark()
-                nb0 = tap.bytes_read
-                rec.mon('frame_values')
-                try:
-                    real.setFrameSet(fobj, slice(a, b, s), None if chl is None else list(chl))
-                    fs = real.frameSet
-                    frames = fs.frames
-                    xs = [float(fs.xAxisValue(i)) for i in range(len(sel))] if cols else []
-                except Exception as e:  # noqa
-                    neg70 = any(lp.channels[c].rc == 70 and any(M[f, lp.col_start[c] + j] < 0 for f in sel for j in range(lp.channels[c].nvalues))
-                                for c in chans)
-                    viol('frame_values', 'load-exception', 'setFrameSet(%r, %r) raised %s: %s' % (slice(a, b, s), chl, type(e).__name__, e),
-                         dict(w0, negative_code70_in_selection=neg70), exc=e)
-                    if neg70:
-                        rec.cls('load-with-negative-code70')
-                    # a failed load leaves the file object mid-record; start afresh for the rest of the history
-                    continue
-                rec.add('loads')
-                rec.add('bytes_read_in_loads', tap.bytes_read - nb0)
-                rec.add('frames_loaded', len(sel))
-                # shape and values
-                expM = M[np.ix_(sel, cols)] if sel and cols else np.empty((len(sel), len(cols)))
-                frames_equal = frames.shape == expM.shape and bool(np.array_equal(frames, expM))
-                if frames.shape != expM.shape:
-                    viol('frame_values', 'shape', 'frames shape %r, requested sub-matrix is %r' % (frames.shape, expM.shape), w0)
-                elif not frames_equal:
-                    bad = np.argwhere(frames != expM)[:6]
-                    viol('frame_values', 'value', 'value differs at (frame, column) %s: got %r, recorded %r' % (
-                        bad[0].tolist(), frames[tuple(bad[0])], expM[tuple(bad[0])]),
-                        dict(w0, mismatches=[{'frame': sel[i], 'row': int(i), 'column': int(j), 'got': float(frames[i, j]), 'recorded': float(expM[i, j])}
-                                             for i, j in bad]))
-                if frames_equal:
-                    partials.append((h, sel, cols, frames.copy(), xs))
-                    if (a, b, s, chl) == (0, lp.total, 1, None):
-                        full = (frames.copy(), xs)
-                # X axis
+            states.append(st)
+        # ---- the order of the loads: log pass after log pass, or (half of the files with several log passes) interleaved, each
+        # log pass keeping its own order: a load on one log pass must not depend on what was loaded from another in between
+        queues = [[(st, h) for h in range(len(st['history']))] for st in states]
+        loads = []
+        if len(queues) > 1 and rng.random() < 0.5:
+            rec.cls('file-with-interleaved-loads-on-several-log-passes')
+            while any(queues):
+                q = rng.choice([q for q in queues if q])
+                loads.append(q.pop(0))
+        else:
+            for q in queues:
+                loads.extend(q)
+        # a second reader object on the same file (same file id): the index belongs to the file, not to one reader object
+        fobj2 = None
+        if loads and rng.random() < 0.3:
+            try:
+                fobj2 = File.FileRead(tap, 'c06-file', keepGoing=keep_going)
+                rec.cls('file-loaded-through-two-reader-objects')
+            except Exception as e:  # noqa
+                viol('index_model', 'exception', 'a second FileRead on the file raised %s: %s' % (type(e).__name__, e), _file_witness(fm, data), exc=e)
+        last_lpi = None
+        for st, h in loads:
+            lp, real, desc, scale, nch, M, X, rec_of = st['lp'], st['real'], st['desc'], st['scale'], st['nch'], st['M'], st['X'], st['rec_of']
+            history, lpi = st['history'], st['lpi']
+            a, b, s, chl = history[h]
+            # the channel list argument: a fresh list, or one list object the caller keeps for this log pass and refills (the
+            # reader appends the X channel to the list it is given), or that object passed again as it was left
+            arg = None if chl is None else list(chl)
+            if chl is not None and rng.random() < 0.5:
+                shared = st['shared']
+                if shared and rng.random() < 0.25 and (0 in shared or lp.indirect):
+                    chl = list(shared)
+                    history[h] = (a, b, s, chl)
+                    rec.cls('channel-list-object-passed-again-unchanged')
+                else:
+                    shared[:] = chl
+                    rec.cls('channel-list-object-refilled')
+                arg = shared
+            sel = list(range(a, b, s))
+            chans = list(range(nch)) if chl is None else sorted(set(chl) | (set() if lp.indirect else {0}))
+            cols = [lp.col_start[c] + j for c in chans for j in range(lp.channels[c].nvalues)]
+            recs_needed = sorted(set(rec_of[f][0] for f in sel))
+            crosses = len(recs_needed) > 1
+            nontrivial = (lp.indirect and s > 1 and crosses and len(sel) > 1) or (chl is not None and chans != list(range(len(chans))))
+            classes = ['history-pos-%d' % min(h, 3)]
+            if last_lpi is not None and last_lpi != lpi and st['done']:
+                classes.append('load-after-a-load-on-another-log-pass')
+            last_lpi = lpi
+            if lp.indirect and s > 1 and crosses:
+                classes.append('implied-x-stepped-crossing')
+            if chl is not None and chans != list(range(len(chans))):
+                classes.append('non-prefix-subset')
+            if chans and chans[-1] != nch - 1:
+                classes.append('last-channel-unselected')
+            if not sel:
+                classes.append('empty-slice')
+            rec.case(('load', digest, lpi, h, a, b, s, chl), nontrivial, classes=classes,
+                     sample={'file_bytes': len(data), 'layout': fm.layout.describe(), 'frames_per_record': lp.frames_per_record[:40],
+                             'implied_x': lp.indirect, 'slice': [a, b, s], 'channels': chl,
+                             'codes': [c.rc for c in lp.channels]} if nontrivial else None)
+            w0 = dict(desc, slice=[a, b, s], channel_list=chl, history=[list(x[:3]) + [x[3]] for x in history[:h + 1]],
+                      keep_going=keep_going, loads_in_file_order=[[q['lpi'], k] for q, k in loads][:40])
+            fo = fobj2 if fobj2 is not None and rng.random() < 0.5 else fobj
+            default_args = (a, b, s, chl) == (0, lp.total, 1, None) and rng.random() < 0.5
+            if default_args:
+                rec.cls('full-load-with-default-arguments')
+            tap.mark()
+            nb0 = tap.bytes_read
+            rec.mon('frame_values')
+            st['done'].append(h)
+            try:
+                if default_args:
+                    real.setFrameSet(fo)
+                else:
+                    real.setFrameSet(fo, slice(a, b, s), arg)
+                fs = real.frameSet
+                frames = fs.frames
+                xs = [float(fs.xAxisValue(i)) for i in range(len(sel))] if cols else []
+            except Exception as e:  # noqa
+                neg70 = any(lp.channels[c].rc == 70 and any(M[f, lp.col_start[c] + j] < 0 for f in sel for j in range(lp.channels[c].nvalues))
+                            for c in chans)
+                viol('frame_values', 'load-exception', 'setFrameSet(%r, %r) raised %s: %s' % (slice(a, b, s), chl, type(e).__name__, e),
+                     dict(w0, negative_code70_in_selection=neg70), exc=e)
+                if neg70:
+                    rec.cls('load-with-negative-code70')
+                # a failed load leaves the file object mid-record; the next load seeks anyway
+                continue
+            rec.add('loads')
+            rec.add('bytes_read_in_loads', tap.bytes_read - nb0)
+            rec.add('frames_loaded', len(sel))
+            # shape and values
+            expM = M[np.ix_(sel, cols)] if sel and cols else np.empty((len(sel), len(cols)))
+            frames_equal = frames.shape == expM.shape and bool(np.array_equal(frames, expM))
+            if frames.shape != expM.shape:
+                viol('frame_values', 'shape', 'frames shape %r, requested sub-matrix is %r' % (frames.shape, expM.shape), w0)
+            elif not frames_equal:
+                bad = np.argwhere(frames != expM)[:6]
+                viol('frame_values', 'value', 'value differs at (frame, column) %s: got %r, recorded %r' % (
+                    bad[0].tolist(), frames[tuple(bad[0])], expM[tuple(bad[0])]),
+                    dict(w0, mismatches=[{'frame': sel[i], 'row': int(i), 'column': int(j), 'got': float(frames[i, j]), 'recorded': float(expM[i, j])}
+                                         for i, j in bad]))
+            if frames_equal:
+                st['partials'].append((h, sel, cols, frames.copy(), xs))
+                if (a, b, s, chl) == (0, lp.total, 1, None):
+                    st['full'] = (frames.copy(), xs)
+            # X axis
+            if sel and cols:
+                expX = [X[f] for f in sel]
+                if lp.indirect:
+                    rec.mon('implied_x')
+                    if not all(_close(g, e, scale) for g, e in zip(xs, expX)):
+                        k = next(i for i, (g, e) in enumerate(zip(xs, expX)) if not _close(g, e, scale))
+                        # the witness holds at most 400 rows (the recorder's cap): a window that starts at the last row before the
+                        # first mismatch that is the first selected row of its record and still has the expected X (row 0 otherwise)
+                        j0 = 0
+                        if len(sel) > 400:
+                            for j in range(k - 1, 0, -1):
+                                if rec_of[sel[j - 1]][0] != rec_of[sel[j]][0] and _close(xs[j], expX[j], scale):
+                                    j0 = j
+                                    break
+                        win = slice(j0, j0 + 400)
+                        viol('implied_x', 'x-mismatch', 'implied X of frame %d (row %d) is %r, expected %r = X of its record + offset x spacing' % (
+                            sel[k], k, xs[k], expX[k]),
+                            dict(w0, indirect=True, frames_equal=frames_equal, step=s, spacing=float(lp.spacing), scale=scale,
+                                 witness_rows_from=j0, observed_x=xs[win], expected_x=expX[win], record_of=[list(rec_of[f]) for f in sel[win]],
+                                 x_records={str(r): float(lp.x_records[r]) for r in recs_needed}))
+                        st['partials'] = [q for q in st['partials'] if q[0] != h]
+                else:
+                    rec.mon('explicit_x')
+                    if xs != expX:
+                        k = next(i for i, (g, e) in enumerate(zip(xs, expX)) if g != e)
+                        viol('explicit_x', 'x-mismatch', 'X of frame %d is %r, recorded %r' % (sel[k], xs[k], expX[k]),
+                             dict(w0, observed_x=xs[:400], expected_x=expX[:400]))
+            # random access by (frame, channel, sample, burst)
+            if frames_equal and sel and cols:
+                rec.mon('value_access')
+                for _ in range(4):
+                    i = rng.randrange(len(sel))
+                    c = rng.choice(chans)
+                    ch = lp.channels[c]
+                    if ch.dipmeter:
+                        continue        # the (sub-channel, sample) addressing of dipmeter values is not modelled; the matrix is compared
+                    sa, bu = rng.randrange(ch.samples), rng.randrange(ch.bursts)
+                    want = M[sel[i], lp.col_start[c] + sa * ch.bursts + bu]
+                    try:
+                        gotv = fs.value(i, c, 0, sa, bu)
+                    except Exception as e:  # noqa
+                        viol('value_access', 'exception', 'value(%d,%d,0,%d,%d) raised %s' % (i, c, sa, bu, type(e).__name__), w0, exc=e)
+                        break
+                    if gotv != want:
+                        viol('value_access', 'value', 'value(frame %d, channel %d, sample %d, burst %d) = %r, recorded %r' % (
+                            sel[i], c, sa, bu, gotv, want), dict(w0, frame=sel[i], channel=c, sample=sa, burst=bu))
+            # read containment
+            rec.mon('read_containment')
+            allowed = [(lp.extents[r][0], lp.extents[r][1]) for r in recs_needed]
+            outside = tap.outside(allowed)
+            rec.add('reads_in_loads', len(tap.reads))
+            if outside:
+                viol('read_containment', 'outside', '%d reads outside the %d data records holding requested frames, first at 0x%x (%d bytes)' % (
+                    len(outside), len(allowed), outside[0][0], outside[0][1]),
+                    dict(w0, outside=outside[:20], allowed=allowed[:40], extents=[list(e) for e in lp.extents][:40]))
+        # ---- metamorphic: every partial load is the sub-matrix of the full load
+        for st in states:
+            if st['full'] is None:
+                continue
+            lp, desc, scale, history = st['lp'], st['desc'], st['scale'], st['history']
+            F, FX = st['full']
+            for h, sel, cols, fr, xs in st['partials']:
+                rec.mon('submatrix_vs_full')
+                sub = F[np.ix_(sel, cols)] if sel and cols else np.empty((len(sel), len(cols)))
+                okx = True
                 if sel and cols:
-                    expX = [X[f] for f in sel]
                     if lp.indirect:
-                        rec.mon('implied_x')
-                        if not all(_close(g, e, scale) for g, e in zip(xs, expX)):
-                            k = next(i for i, (g, e) in enumerate(zip(xs, expX)) if not _close(g, e, scale))
-                            viol('implied_x', 'x-mismatch', 'implied X of frame %d (row %d) is %r, expected %r = X of its record + offset x spacing' % (
-                                sel[k], k, xs[k], expX[k]),
-                                dict(w0, indirect=True, frames_equal=frames_equal, step=s, spacing=float(lp.spacing), scale=scale,
-                                     observed_x=xs, expected_x=expX, record_of=[list(rec_of[f]) for f in sel],
-                                     x_records={str(r): float(lp.x_records[r]) for r in recs_needed}))
-                            partials = [q for q in partials if q[0] != h]
+                        okx = all(_close(g, FX[f], scale) for g, f in zip(xs, sel))
                     else:
-                        rec.mon('explicit_x')
-                        if xs != expX:
-                            k = next(i for i, (g, e) in enumerate(zip(xs, expX)) if g != e)
-                            viol('explicit_x', 'x-mismatch', 'X of frame %d is %r, recorded %r' % (sel[k], xs[k], expX[k]),
-                                 dict(w0, observed_x=xs, expected_x=expX))
-                # random access by (frame, channel, sample, burst)
-                if frames_equal and sel and cols:
-                    rec.mon('value_access')
-                    for _ in range(4):
-                        i = rng.randrange(len(sel))
-                        c = rng.choice(chans)
-                        ch = lp.channels[c]
-                        sa, bu = rng.randrange(ch.samples), rng.randrange(ch.bursts)
-                        want = M[sel[i], lp.col_start[c] + sa * ch.bursts + bu]
-                        try:
-                            gotv = fs.value(i, c, 0, sa, bu)
-                        except Exception as e:  # noqa
-                            viol('value_access', 'exception', 'value(%d,%d,0,%d,%d) raised %s' % (i, c, sa, bu, type(e).__name__), w0, exc=e)
-                            break
-                        if gotv != want:
-                            viol('value_access', 'value', 'value(frame %d, channel %d, sample %d, burst %d) = %r, recorded %r' % (
-                                sel[i], c, sa, bu, gotv, want), dict(w0, frame=sel[i], channel=c, sample=sa, burst=bu))
-                # read containment
-                rec.mon('read_containment')
-                allowed = [(lp.extents[r][0], lp.extents[r][1]) for r in recs_needed]
-                outside = tap.outside(allowed)
-                rec.add('reads_in_loads', len(tap.reads))
-                if outside:
-                    viol('read_containment', 'outside', '%d reads outside the %d data records holding requested frames, first at 0x%x (%d bytes)' % (
-                        len(outside), len(allowed), outside[0][0], outside[0][1]),
-                        dict(w0, outside=outside[:20], allowed=allowed[:40], extents=[list(e) for e in lp.extents][:40]))
-            # ---- metamorphic: every partial load is the sub-matrix of the full load
-            if full is not None:
-                F, FX = full
-                for h, sel, cols, fr, xs in partials:
-                    rec.mon('submatrix_vs_full')
-                    sub = F[np.ix_(sel, cols)] if sel and cols else np.empty((len(sel), len(cols)))
-                    okx = True
-                    if sel and cols:
-                        if lp.indirect:
-                            okx = all(_close(g, FX[f], scale) for g, f in zip(xs, sel))
-                        else:
-                            okx = xs == [FX[f] for f in sel]
-                    if sub.shape != fr.shape or not np.array_equal(sub, fr) or not okx:
-                        a, b, s, chl = history[h]
-                        viol('submatrix_vs_full', 'differs', 'load %d slice(%d,%d,%d) channels %r is not the sub-matrix of the full load (X ok: %s)' % (
-                            h, a, b, s, chl, okx), dict(desc, slice=[a, b, s], channel_list=chl))
+                        okx = xs == [FX[f] for f in sel]
+                if sub.shape != fr.shape or not np.array_equal(sub, fr) or not okx:
+                    a, b, s, chl = history[h]
+                    viol('submatrix_vs_full', 'differs', 'load %d slice(%d,%d,%d) channels %r is not the sub-matrix of the full load (X ok: %s)' % (
+                        h, a, b, s, chl, okx), dict(desc, slice=[a, b, s], channel_list=chl))
+        # ---- indexing once more after the loads (a fifth of the files): same entries, same log passes
+        if rng.random() < 0.2:
+            rec.mon('index_again_after_loads')
+            try:
+                idx2 = FileIndexer.FileIndex(fobj2 if fobj2 is not None else fobj)
+                got2 = index_entries(idx2)
+                totals2 = [(o.tell, o.logPass.totalFrames) for o in idx2.genLogPasses()]
+            except Exception as e:  # noqa
+                viol('index_model', 'exception', 'indexing again after the loads raised %s: %s' % (type(e).__name__, e),
+                     dict(_file_witness(fm, data), keep_going=keep_going), exc=e)
+            else:
+                want2 = [(lp.dfsr_pos, lp.total) for lp in fm.logpasses]
+                if got2 != exp or totals2 != want2:
+                    viol('index_model', 'entries-second-index', 'a second index of the same file differs from the file: %d entries (%d expected), log passes %r expected %r' % (
+                        len(got2), len(exp), totals2[:6], want2[:6]), dict(_file_witness(fm, data), got=got2[:60], expected=exp[:60]))
         # ---- contracts
         for name, msg in contracts.drain():
             viol('contract:' + name, 'breach', msg, dict(_file_witness(fm, data), contract=name, message=msg))
@@ -390,6 +504,7 @@ LEVEL_TEXT = ('Generated LIS files from an independent encoder are indexed and l
               'full load, and every file read is checked against the byte extents of the needed data records; contracts on '
               'FrameSet / RLEType01 run on the live objects.  Sampled, not exhaustive.')
 LEVEL_NOTE = ('Trusted: the harness encoder/decoder in tdv.gen.lis (cross-checked word by word against the standard examples), numpy '
-              'array comparison, icontract.  Not covered: dipmeter codes 130/234, slices with None/negative members, pad-modulo reading.')
+              'array comparison, icontract.  Not covered: value(frame, channel, sub-channel, sample, burst) addressing inside dipmeter channels '
+              '(their bytes are compared in frame order), slices with None/negative members, pad-modulo reading.')
 TECHNIQUE = ('runtime monitoring: model-based differential against an independent LIS-79 encoder, metamorphic full-vs-partial loads, '
              'I/O tap for read containment, icontract invariants on the live classes, sys.monitoring mechanism counters')
